@@ -6,7 +6,7 @@
    plus an intra-chunk counter) are tied to the code and compared with indexing by the
    correspondence (lengths sweeping every subtree boundary). *)
 Require Import RM.Base RM.Gindex RM.Tree RM.Types RM.Spec RM.ModelViews RM.ModelCodec RM.ModelMut RM.ModelIters
-               RM.MerkleProofs RM.CRepProofs RM.ListProofs RM.CtorProofs RM.IterProofs.
+               RM.MerkleProofs RM.CRepProofs RM.ListProofs RM.CtorProofs RM.IterProofs RM.HistoryProofs RM.ReprProofs RM.RootInj.
 Local Open Scope N_scope.
 
 (* index i of a contents tree representing ns reads the i-th represented node *)
@@ -65,3 +65,23 @@ Print Assumptions C15_list_reads.
 Print Assumptions C15_eq_iff_root.
 Print Assumptions C15_hash_consistent.
 Print Assumptions C15_equal_content_equal.
+
+(* "... which is exactly when their contents are equal": with a collision-free pair hash (Hinj, the premise
+   under which roots identify subtrees) two well-formed values of a type have equal hash-tree-roots iff they are
+   the same value — chunk packing, merkleisation over the type-determined shape and the length / selector mix-ins
+   are all injective ... *)
+Theorem C15_root_iff_content : forall H (Hi : Hinj H) t v w, wf_ty t = true -> wf t v = true -> wf t w = true ->
+  (htr H t v = htr H t w <-> v = w).
+Proof. intros H Hi t v w Hty Hv Hw. split; [now apply htr_inj|now intros ->]. Qed.
+
+(* ... hence two views (ANY representations of their values: constructed, decoded, mutated) compare equal exactly
+   when their contents are equal *)
+Theorem C15_eq_iff_content : forall H (Hi : Hinj H) t v w a b, wf_ty t = true -> wf t v = true -> wf t w = true ->
+  Repr H t v a -> Repr H t w b -> (eq_impl H a b = true <-> v = w).
+Proof.
+  intros H Hi t v w a b Hty Hv Hw Ha Hb. rewrite C15_eq_iff_root, (Repr_root H t v a Hty Hv Ha), (Repr_root H t w b Hty Hw Hb).
+  now apply C15_root_iff_content.
+Qed.
+
+Print Assumptions C15_root_iff_content.
+Print Assumptions C15_eq_iff_content.
